@@ -7,5 +7,5 @@ CONSTANTS
   Emit = FALSE
 INIT Init
 NEXT Next
-INVARIANTS AsisExact
+INVARIANTS PinnedExact
 CHECK_DEADLOCK FALSE
